@@ -44,15 +44,19 @@ theorem firstSeen_of_view (start H h : Nat) (hh : 1 ≤ h) (hH : h ≤ H) (hb : 
 
 /-- **soundness**: whenever the watcher reports the opening transaction as confirmed, the transaction has at
     least the required depth on the node's best chain and the payment window was still open at the height the
-    watcher was handed — for every handed height at or below the tip (a stale notification included) -/
+    watcher was handed — for EVERY handed height: at or below the tip (a stale notification) and above it
+    (a reorganisation left the node with a shorter best chain than the height the block poller had seen; the
+    hypothesis `height ≤ H` that this theorem needed before /repo fix "count the depth up to the node's tip"
+    is gone, its witness is `C20_depth_from_handed_height_unsound`) -/
 theorem C20_confirmed_sound (confs start limit last height H h : Nat)
-    (hh : 1 ≤ h) (hH : h ≤ H) (hb : H < 4294967296) (hs : start + limit < 4294967296) (hle : height ≤ H)
+    (hh : 1 ≤ h) (hH : h ≤ H) (hb : H < 4294967296) (hs : start + limit < 4294967296)
     (hc : observe confs start limit last height (viewOf H h) = .confirmed) :
     confs ≤ H - h + 1 ∧ height < start + limit ∧ h ≤ start + limit := by
   unfold observe at hc
   rw [firstSeen_of_view start H h hh hH hb] at hc
   have hw : wrapU32 (start + limit) = start + limit := by unfold wrapU32; omega
-  simp only [hw] at hc
+  have hwH : wrapU32 (viewOf H h).rpcHeight = H := by unfold wrapU32 viewOf; simp only; omega
+  simp only [hw, hwH] at hc
   split at hc
   · cases hc
   · split at hc
@@ -64,6 +68,14 @@ theorem C20_confirmed_sound (confs start limit last height H h : Nat)
           simp only [Int.ofNat_eq_coe] at h4
           omega
         · cases hc
+
+/-- the rule of the code before that fix (depth counted from the handed height alone): tip 103 with the
+    transaction in block 103 (one confirmation), handed height 105 from the chain that was reorganised away,
+    three confirmations required — reported as confirmed -/
+theorem C20_depth_from_handed_height_unsound :
+    (Int.ofNat 105 - (Int.ofNat 103 - 1) ≥ Int.ofNat 3) ∧ ¬ (3 ≤ 103 - 103 + 1)
+    ∧ isTxInMempoolOrRange 100 (viewOf 103 103) = .ok 103
+    ∧ observe 3 100 60 104 105 (viewOf 103 103) = .wait := by decide
 
 /-- once the window has closed the watcher reports a failure, whatever the node answers -/
 theorem C20_window_closed_fails (confs start limit last height : Nat) (v : View)
@@ -85,6 +97,8 @@ theorem C20_confirmed_complete (confs start limit last H h : Nat)
   have hw : wrapU32 (start + limit) = start + limit := by unfold wrapU32; omega
   simp only [hw]
   rw [if_neg (by omega), if_neg (by omega)]
+  have hwH : wrapU32 (viewOf H h).rpcHeight = H := by unfold wrapU32 viewOf; simp only; omega
+  rw [hwH, Nat.min_self]
   show (if h > start + limit then Out.failed else if Int.ofNat H - (Int.ofNat h - 1) ≥ Int.ofNat confs then Out.confirmed else Out.wait) = Out.confirmed
   rw [if_neg (by omega), if_pos (by simp only [Int.ofNat_eq_coe]; omega)]
 
